@@ -234,7 +234,7 @@ func classify(x interface{}) string {
 		}
 		rv := reflect.ValueOf(value)
 		base, depth := codecx.VTag(rv.Type())
-		if isArr && depth >= 2 && rv.Len() == 0 && !rv.IsNil() && int(mask&0x3f) == int(ua.TypeIDVariant) && base != int(ua.TypeIDVariant) {
+		if _ = base; isArr && depth >= 2 && rv.Len() == 0 && !rv.IsNil() && int(mask&0x3f) == int(ua.TypeIDVariant) {
 			return "C01.variant-empty-multidim"
 		}
 		if isArr && int(mask&0x3f) == int(ua.TypeIDByteString) && alen > 0 {
